@@ -98,6 +98,14 @@ def explore(tier, seed):
         tequal += not found
         for kind, detail in found:
             cands.setdefault(f"seq|{'>'.join(ks)}|{kind}", ({"sequence": True, "seq": list(ks), "kind": kind}, detail))
+    # pairs that meet on the manifest only
+    mpairs, mhit, _ = seqspace.explore_manifest_pairs(tier, seed)
+    for (k1, k2), rec in sorted(mpairs.items()):
+        states.add(core.tree_state_id(rec["files"]))
+        for t in [rec["batch"]["tree"]] + [c["tree"] for c in rec["chain"]]:
+            states.add(core.tree_state_id({k: v for k, v in t.items() if isinstance(v, bytes)}))
+        for kind, detail in judge(rec):
+            cands.setdefault(f"seq|manifest-only|{k1}>{k2}|{kind}", ({"sequence": True, "manifest_pair": [k1, k2], "kind": kind}, detail))
     # SAST-driven pairs (result files unchanged between the chained invocations, as in the one invocation)
     spairs, shit, swall = seqspace.explore_sast_pairs(tier, seed)
     sequal = 0
@@ -138,7 +146,8 @@ def explore(tier, seed):
     changed_by_both = sum(1 for r in pairs.values() if r["chain"][0]["tree"] != r["files"] and r["chain"][1]["tree"] != r["chain"][0]["tree"])
     coverage = {
         "states": len(states),
-        "transitions": 3 * len(pairs) + 4 * len(triples) + 3 * len(spairs) + len(druns) * (dlen + 1),
+        "transitions": 3 * len(pairs) + 4 * len(triples) + 3 * len(spairs) + 3 * len(mpairs) + len(druns) * (dlen + 1),
+        "manifest_only_pairs": len(mpairs),
         "sast_ordered_pairs": len(spairs),
         "sast_pairs_with_equal_outcome": sequal,
         "sast_cache_hit": shit,
@@ -167,6 +176,10 @@ def explore(tier, seed):
 
 
 def replay(rp):
+    if "manifest_pair" in rp:
+        rec = seqspace.manifest_pair_job_cli(tuple(rp["manifest_pair"]))
+        found = list(judge(rec))
+        return (rp["kind"] not in {k for k, _ in found}), "\n".join(f"{k}: {d}" for k, d in found) or "one run == chain of single runs"
     if "sast" in rp:
         rec = seqspace.sast_pair_job(tuple(rp["sast"]))
         found = list(judge(rec))
